@@ -107,9 +107,15 @@ func worker(c Composition) workerResult {
 	var seq int64
 	var seqMu sync.Mutex
 	next := func() int64 { seqMu.Lock(); defer seqMu.Unlock(); seq++; return seq }
+	// one long-lived transaction configuration per kind, shared by every goroutine that runs that kind (applications keep
+	// such a configuration around); its timeout is left to the default
+	shared := map[string]*tm.GtxConfig{}
+	for _, k := range kinds {
+		shared[k] = &tm.GtxConfig{Name: "c20-" + k}
+	}
 	one := func(kind string, slot int) error {
 		var xid string
-		err := tm.WithGlobalTx(context.Background(), &tm.GtxConfig{Name: "c20-" + kind, Timeout: time.Minute}, func(ctx context.Context) error {
+		err := tm.WithGlobalTx(context.Background(), shared[kind], func(ctx context.Context) error {
 			xid = tm.GetXID(ctx)
 			switch kind {
 			case "at-commit":
@@ -189,6 +195,10 @@ func worker(c Composition) workerResult {
 		}
 	}
 	for round := 0; round < c.Rounds; round++ {
+		// fresh configurations each round: their first concurrent uses fall into this round
+		for _, k := range kinds {
+			shared[k] = &tm.GtxConfig{Name: "c20-" + k}
+		}
 		var wg sync.WaitGroup
 		done := make(chan struct{})
 		errs := make([]error, len(c.Kinds))
